@@ -277,7 +277,10 @@ def inline_new_helpers(facts, known):
     for b in facts.bodies:
         if b.dk in ("Fn", "AssocFn"):
             by_path.setdefault(b.path, []).append(b)
-    new = {p: bs[0] for p, bs in by_path.items() if p not in known and len(bs) == 1}
+    # paths are compared without the names of generic parameters (renaming a type parameter renames no function)
+    from ir import canon_generics
+    known_c = set(canon_generics(k) for k in known)
+    new = {p: bs[0] for p, bs in by_path.items() if p not in known and canon_generics(p) not in known_c and len(bs) == 1}
     if not new:
         return 0
     ok_helpers = {}
